@@ -198,7 +198,7 @@ func (f *fixture) open() {
 	mavldb.ReleaseGlobalMem()
 	sub, _ := json.Marshal(map[string]interface{}{
 		"enableMavlPrefix": f.cfg.Prefix, "enableMVCC": f.cfg.MVCC, "enableMavlPrune": f.cfg.Prune,
-		"pruneHeight": 1 << 30, // so large that Tree.Save never starts the pruning goroutine
+		"pruneHeight":   1 << 30, // so large that Tree.Save never starts the pruning goroutine
 		"enableMemTree": f.cfg.MemTree, "enableMemVal": f.cfg.MemVal, "tkCloseCacheLen": f.cfg.TkCache,
 	})
 	f.store = mavl.New(&types.Store{Name: "mavl", Driver: f.cfg.Driver, DbPath: f.dir, DbCache: 16}, sub, nil).(*mavl.Store)
